@@ -523,15 +523,18 @@ async fn run_case(c: &Case, ctx: &mut WorkerCtx) -> Outcome {
     // (load balancing picks among unbanned candidates at random when the pool is idle: a replica that is never chosen in
     // n transactions with probability < 1e-7 is still banned)
     if c.expiry_probe && c.ban_time_short && !stale.is_empty() {
+        // "recovered" = restarted: sessions that hang at start-up or in a query are gone with the old process (left hanging,
+        // they would occupy the pooler's connection slots for that replica for ever, which is not what a recovery looks like)
         for r in 0..nrep {
             env.mocks[np + r].set_slow(0);
             env.mocks[np + r].set_fault(Fault::Up);
+            env.mocks[np + r].kill_sessions();
         }
         let shards_to_probe: Vec<usize> = (0..nsh).filter(|s| reps_of(*s).len() >= 2 && reps_of(*s).iter().any(|r| stale.contains(r))).collect();
         if !shards_to_probe.is_empty() {
             // round A: flush connections that died with their replica (may cost transactions and re-ban for a second)
             for sh in &shards_to_probe {
-                for _ in 0..10 {
+                for _ in 0..24 {
                     cid += 1;
                     let _ = replica_txn(&env, cid, *sh).await;
                 }
@@ -550,7 +553,7 @@ async fn run_case(c: &Case, ctx: &mut WorkerCtx) -> Outcome {
                 };
                 // a replica whose pooled connections died with it can be banned once more (for a second) when such a
                 // connection fails its health check: then the probe is repeated after that ban has expired as well
-                for attempt in 0..3 {
+                for attempt in 0..4 {
                     let mut hits: HashMap<usize, u32> = HashMap::new();
                     let mut clean = true;
                     for _ in 0..n {
@@ -573,9 +576,12 @@ async fn run_case(c: &Case, ctx: &mut WorkerCtx) -> Outcome {
                     }
                     let bans = show_bans(&mut admin).await.unwrap_or_default();
                     let listed = |r: usize| bans.keys().any(|k| k.starts_with(&format!("{}|", replica_ip(r))));
-                    if !clean || missing.iter().any(|r| listed(*r)) {
+                    // (SHOW BANS does not list a 1-second ban whose remaining whole seconds are already zero although it
+                    // is still in force, so an unlisted replica is only judged on the last attempt: each earlier re-ban
+                    // used up one of the replica's at most two stale connections)
+                    if attempt < 3 || !clean || missing.iter().any(|r| listed(*r)) {
                         o.label("expiry_probe_repeated");
-                        if attempt < 2 {
+                        if attempt < 3 {
                             tokio::time::sleep(Duration::from_millis(2400)).await;
                         }
                         continue;
